@@ -80,6 +80,7 @@ type interpreter struct {
 	sizes              types.Sizes
 	cfg                *Config
 
+	randCounter int
 	strChars map[string][]string // symbolic strings decomposed into named code points (natives_str.go)
 
 	// path control
